@@ -83,6 +83,20 @@ def adjust_verdict(op, impl, verdict):
     return "ok"
 
 
+def _utf8_document(hexdoc):
+    """UTF-8 text without a declaration of another encoding (XML prolog) and without a UTF-16/32 BOM"""
+    import re
+    try:
+        b = bytes.fromhex(hexdoc) if hexdoc != "-" else b""
+        b.decode("utf-8")
+    except ValueError:
+        return False
+    if b[:2] in (b"\xff\xfe", b"\xfe\xff") or b[:4] == b"\x00\x00\xfe\xff":
+        return False
+    m = re.search(rb"<\?xml[^>]*encoding\s*=\s*[\"']([^\"']*)[\"']", b[:200])
+    return not m or m.group(1).strip().lower() in (b"utf-8", b"utf8")
+
+
 def extra_checks(ops, impl, res, known_classes, known_hits):
     """memory vs stream: same document + same history => same answers (the property itself)"""
     bad = []
@@ -90,6 +104,8 @@ def extra_checks(ops, impl, res, known_classes, known_hits):
     for op, ia in zip(ops, impl):
         t = op.split(" ")
         if t[0] in ("json.load", "xml.load"):
+            if not _utf8_document(t[-1]):
+                continue          # the string overloads take UTF-8 text; a document in another declared encoding is outside the comparison
             key = " ".join(t[:2] + t[3:])
             if key in seen and seen[key][0] != t[2]:
                 if seen[key][1] != ia:
